@@ -81,11 +81,17 @@ func (r *Report) ReturnFormula(rule string, u *Unit, want string, dir Dir) {
 			rets = append(rets, s)
 		}
 	}
-	if len(rets) != 1 || len(rets[0].Ret.Results) != 1 {
-		r.Unknown(rule, construct, "", fmt.Sprintf("expected a single return with one result, found %d return(s)", len(rets)))
-		return
+	var got *flow.F
+	if len(rets) == 1 && len(rets[0].Ret.Results) == 1 {
+		got = u.C.Formula(flow.FromExpr(rets[0].Ret.Results[0]))
+	} else {
+		// guard clauses, nested ifs: the condition under which true is returned
+		var why string
+		if got, why = u.TruthFormula(); got == nil {
+			r.Unknown(rule, construct, "", fmt.Sprintf("%d return(s): %s", len(rets), why))
+			return
+		}
 	}
-	got := u.C.Formula(flow.FromExpr(rets[0].Ret.Results[0]))
 	w := u.W.Parse(want)
 	ok, detail := true, "returned: "+got.String()
 	if dir == Equiv || dir == ActualImpliesWant {
